@@ -82,7 +82,7 @@ class C25(Property):
     props_files = ["SFV/Props/C25.lean"]
     drivers = ["Drivers/C25.lean"]
     translators = [cmdtmpl.generate]
-    quick_budget_s = 300
+    quick_budget_s = 480
     rule = ("(1) render: random workdir/environment/command through the real _build_shell_command, create_command and "
             "CommandTemplateMap.get_command vs the Lean renderers assembled from the generated template pieces; (2) lexer: random "
             "lines over quotes, backslash, $, backtick, operators, blanks, unicode read by the Lean sh lexer and by /bin/sh (argv printed "
